@@ -256,6 +256,12 @@ func (ld *Loaded) runInits() error {
 	if len(c.obs) > 0 {
 		return fmt.Errorf("init produced obligations: %s", c.obs[0].Name)
 	}
+	// crypto/rand.Reader: an opaque non-nil entropy source (io.ReadFull on it is a stub: arbitrary bytes or an error)
+	if rp := ld.prog.ImportedPackage("crypto/rand"); rp != nil {
+		if g, ok := rp.Members["Reader"].(*ssa.Global); ok && ld.errT != nil {
+			st.mem[ld.globals[g]] = IfaceV{T: ld.errT, V: Pointer{}}
+		}
+	}
 	ld.baseMem = st.mem
 	ld.baseObjN = c.objCounter
 	return nil
